@@ -59,6 +59,10 @@ def build_routing(env, per_cell):
                 if rnd.random() < 0.3:
                     psk = special[(len(cw.sessions) * 7 + 3) % len(special)] + g.raw(2)
             info = g.rbytes(rnd.choice([0, 12]))
+            if len(cw.sessions) % 4 == 1:
+                info = pskid  # equal arguments: the identifier must still be hashed under its own label
+            elif len(cw.sessions) % 4 == 3:
+                info = psk
             for mode in gen.MODES:
                 pa = dict(psk=psk, pskid=pskid) if mode in (1, 3) else {}
                 sa = dict(sks="$kS.sk", pks="$kS.pk", **pa) if mode in (2, 3) else dict(pa)
